@@ -5,8 +5,8 @@
 //   case <id>
 //   gd   <dims> <objective> <proj> <maxit> <inc> <dec> <tol> <step0> x: <x...> coef: <c...>
 //   gdc  <dims> <objective> <maxit> <tol> <step> x: <x...> coef: <c...>
-//   (swarm cases: see below)
-// objectives: quad quartic rosen trig badgrad ; projections: none box ball
+//   (swarm cases: see the comment in the swarm branch of main)
+// objectives: quad quartic rosen trig badgrad (swarm cases also: step const l1); projections: none box ball
 #include <cstdio>
 #include <cstdlib>
 #include <cstring>
@@ -118,6 +118,14 @@ struct Domain { std::string kind; std::vector<double> c;
         if (kind == "shell") { double n = 0; for (int i = 0; i < d; i++) n += x[i] * x[i]; return n >= c[0] * c[0] && n <= c[1] * c[1]; }
         return true; }
 };
+// objective families for the swarm cases: the gd families plus plateau-valued ones (exact ties between particles)
+//   step : sum_i floor(|x_i - c_i| * c_d)      const : c_0      l1 : sum_i |x_i - c_i|
+static double swarm_objective(const Objective &ob, const std::vector<double> &x) {
+    if (ob.kind == "step") { double a = 0.0; for (int i = 0; i < ob.d; i++) a += std::floor(std::fabs(x[i] - ob.c[i]) * ob.c[ob.d]); return a; }
+    if (ob.kind == "const") return ob.c[0];
+    if (ob.kind == "l1") { double a = 0.0; for (int i = 0; i < ob.d; i++) a += std::fabs(x[i] - ob.c[i]); return a; }
+    return ob.f(x);
+}
 
 int main(int argc, char **argv) {
     if (argc < 2) { fprintf(stderr, "usage: optdrv cases\n"); return 2; }
@@ -161,10 +169,14 @@ int main(int argc, char **argv) {
             printf("end\n");
         }
         else if (cmd == "swarm") {
-            // swarm <dims> <nparticles> <objective> <domain...> coef: <c...> # ops...
-            // followed by op lines until "endcase":
-            //   init box <lo> <hi> rng: <r...>   | setpos <x...> | setvel <v...> | setbest <x...>
-            //   run <iters> <w> <c1> <c2> rng: <r...>  | clearcache | clearbest | dump
+            // swarm <dims> <nparticles> <objective> <domain...> coef: <c...>
+            // followed by op lines until "endcase" (the state is dumped after EVERY op):
+            //   rng <r...>                      set the case-level random stream (read position back to 0); draws past
+            //                                   the end of the stream return 0.5
+            //   init lo: <lo...> hi: <hi...>    initializeParticlesInsideBox (draws from the case stream)
+            //   setpos <x...> | setvel <v...> | setbest <x...>        (vector overloads; wrong sizes throw)
+            //   run <iters> <w> <c1> <c2>       ParticleSwarm (draws from the case stream)
+            //   clearcache | clearbest | dump
             printf("params %s\n", line.c_str());
             Objective ob; Domain dom; int d, np; std::string t;
             ss >> d >> np >> ob.kind; ob.d = d; ss >> dom.kind;
@@ -172,6 +184,8 @@ int main(int argc, char **argv) {
             if (dom.kind == "halfspace") { dom.c.resize(1); ss >> t; dom.c[0] = strtod(t.c_str(), 0); }
             ss >> t; ob.c = readv(ss, "#");
             ParticleSwarmState st(d, np);
+            std::vector<double> stream; size_t spos = 0, calls = 0;
+            auto rng = [&]() -> double { calls++; double v = (spos < stream.size()) ? stream[spos] : 0.5; spos++; return v; };
             auto dump = [&]() {
                 pv1("positions", st.getParticlePositions()); pv1("velocities", st.getParticleVelocities());
                 pv1("bestpos", st.getBestParticlePositions()); pv1("bestswarm", st.getBestPosition());
@@ -183,31 +197,34 @@ int main(int argc, char **argv) {
             while (std::getline(in, line)) {
                 std::istringstream os(line); std::string op; os >> op;
                 if (op == "endcase") break;
+                if (op.empty()) continue;
                 printf("op %s\n", line.c_str());
+                calls = 0;
                 try {
-                if (op == "init") { std::string k; os >> k; os >> t; double lo = strtod(t.c_str(), 0); os >> t; double hi = strtod(t.c_str(), 0); os >> t;
-                    std::vector<double> r = readv(os, "#"); size_t pos = 0; size_t calls = 0;
-                    auto rng = [&]() -> double { calls++; double v = (pos < r.size()) ? r[pos] : 0.5; pos++; return v; };
-                    st.initializeParticlesInsideBox(std::vector<double>(d, lo), std::vector<double>(d, hi), rng);
+                if (op == "rng") { stream = readv(os, "#"); spos = 0; }
+                else if (op == "init") { os >> t; std::vector<double> lo = readv(os, "hi:"); std::vector<double> hi = readv(os, "#");
+                    st.initializeParticlesInsideBox(lo, hi, rng);
                     printf("rngcalls %zu\n", calls); }
                 else if (op == "setpos") { st.setParticlePositions(readv(os, "#")); }
                 else if (op == "setvel") { st.setParticleVelocities(readv(os, "#")); }
                 else if (op == "setbest") { st.setBestParticlePositions(readv(os, "#")); }
                 else if (op == "clearcache") { st.clearCache(); }
                 else if (op == "clearbest") { st.clearBestParticles(); }
-                else if (op == "dump") { dump(); }
+                else if (op == "dump") { }
                 else if (op == "run") { int iters; os >> iters; os >> t; double w = strtod(t.c_str(), 0); os >> t; double c1 = strtod(t.c_str(), 0);
-                    os >> t; double c2 = strtod(t.c_str(), 0); os >> t; std::vector<double> r = readv(os, "#"); size_t pos = 0; size_t calls = 0;
-                    auto rng = [&]() -> double { calls++; double v = (pos < r.size()) ? r[pos] : 0.5; pos++; return v; };
+                    os >> t; double c2 = strtod(t.c_str(), 0);
                     ObjectiveFunction F = [&](const std::vector<double> &xb, std::vector<double> &fv) -> void {
                         size_t n = xb.size() / d; std::vector<double> y(d);
                         printf("Fbatch %zu\n", n);
-                        for (size_t i = 0; i < n; i++) { std::copy_n(xb.begin() + i * d, d, y.begin()); fv[i] = ob.f(y); pv("F", y, {fv[i]}); } };
+                        for (size_t i = 0; i < n; i++) { std::copy_n(xb.begin() + i * d, d, y.begin()); fv[i] = swarm_objective(ob, y); pv("F", y, {fv[i]}); } };
                     TasDREAM::DreamDomain I = [&](const std::vector<double> &y) -> bool { bool b = dom.inside(y.data(), d); pv("I", y, {b ? 1.0 : 0.0}); return b; };
-                    ParticleSwarm(F, I, w, c1, c2, iters, st, rng);
-                    printf("rngcalls %zu\n", calls);
-                    dump(); }
+                    try { ParticleSwarm(F, I, w, c1, c2, iters, st, rng); }
+                    catch (std::exception &e) { printf("rngcalls %zu\n", calls); throw; }
+                    printf("rngcalls %zu\n", calls); }
+                else { printf("exception unknown-op\n"); }
                 } catch (std::exception &e) { printf("exception %s\n", e.what()); }
+                dump();
+                printf("endop\n");
             }
             printf("end\n");
         }
